@@ -20,8 +20,35 @@ func complitsOf(fn *ssa.Function, tname string) []map[string]ssa.Value {
 	for _, f := range WithAnon(fn) {
 		eachInstr(f, func(in ssa.Instruction) {
 			al, ok := in.(*ssa.Alloc)
-			if !ok || al.Comment != "complit" || structName(al.Type()) != tname {
+			if !ok || structName(al.Type()) != tname {
 				return
+			}
+			if al.Comment != "complit" {
+				// a value built field by field (var x T / new(T) followed by one assignment per field) is the
+				// same construction as a composite literal
+				whole, multi, nf := false, false, 0
+				per := map[int]int{}
+				for _, ref := range referrers(al) {
+					switch x := ref.(type) {
+					case *ssa.Store:
+						if x.Addr == ssa.Value(al) {
+							whole = true
+						}
+					case *ssa.FieldAddr:
+						for _, r2 := range referrers(x) {
+							if st, ok := r2.(*ssa.Store); ok && st.Addr == ssa.Value(x) {
+								per[x.Field]++
+								nf++
+								if per[x.Field] > 1 {
+									multi = true
+								}
+							}
+						}
+					}
+				}
+				if whole || multi || nf == 0 {
+					return
+				}
 			}
 			out = append(out, complitFields(al))
 		})
